@@ -13,7 +13,7 @@ META = {
     "level": "model_checking",
     "technique": "TLC model-checks every accepted program (corpus + near-miss mutants + generated) under the TLA+ operational semantics WuffsCore.tla with the safety monitor and the compiler's exported MBounds as invariants (static claims exported through a verif-tagged exporter)",
     "text": "For each accepted program TLC explores every argument choice, every history of <= 2-3 public calls, every input of the bounded domain and every suspension schedule; in every reachable state the monitor (index, slice, overflow, conversion, store, division, shift, recursion, argument refinement) and the checker's claimed range of every evaluated expression are checked. Exhaustive inside the bounds, nothing outside them.",
-    "note": "Trusted: the TLA+ semantics (written from the language documentation), the mechanical AST exporter, TLC. Values stay below 2^30 (8/16-bit types free, 32/64-bit only inside the window); programs outside the interpreted core language are counted, not checked.",
+    "note": "Trusted: the TLA+ semantics (written from the language documentation), the mechanical AST exporter, TLC. Values stay below 2^30 (8/16-bit types free, 32/64-bit only inside the window); programs outside the interpreted core language are counted, not checked. For std itself (60k lines, outside the model's reach) the same claims are asserted at run time by the checked build of hook H3, which runs under C03 (evidence/C03.json, coverage.checked_build): MBounds are not asserted inside loop conditions (they hold on entry only; index and slice bounds are), I/O built-in pre-conditions and null pointers are left to the sanitizers.",
 }
 
 
